@@ -4,13 +4,13 @@
 package reqcase
 
 import (
-	"time"
 	"encoding/json"
 	"fmt"
 	"sort"
 	"strconv"
 	"strings"
 	"sync"
+	"time"
 
 	res "github.com/jirenius/go-res"
 	nats "github.com/nats-io/nats.go"
@@ -25,18 +25,18 @@ import (
 
 // HandlerSpec describes the handlers registered on one pattern.
 type HandlerSpec struct {
-	Pattern   string   `json:"pattern"` // relative to the service name
-	Type      string   `json:"type,omitempty"`
-	Access    bool     `json:"access,omitempty"`
-	Get       bool     `json:"get,omitempty"`
-	Calls     []string `json:"calls,omitempty"`
-	New       bool     `json:"new,omitempty"`
-	Auths     []string `json:"auths,omitempty"`
+	Pattern string   `json:"pattern"` // relative to the service name
+	Type    string   `json:"type,omitempty"`
+	Access  bool     `json:"access,omitempty"`
+	Get     bool     `json:"get,omitempty"`
+	Calls   []string `json:"calls,omitempty"`
+	New     bool     `json:"new,omitempty"`
+	Auths   []string `json:"auths,omitempty"`
 	// Mounted registers the handler on a sub-mux mounted on the pattern's first (literal) token.
-	Mounted   bool     `json:"mounted,omitempty"`
-	ValueMode string   `json:"valueMode,omitempty"` // behaviour of the get handler when called for Value(): ok, error, panic, none, qmodel, collection, ... (see Build)
-	Group     string   `json:"group,omitempty"`
-	Parallel  bool     `json:"parallel,omitempty"`
+	Mounted   bool   `json:"mounted,omitempty"`
+	ValueMode string `json:"valueMode,omitempty"` // behaviour of the get handler when called for Value(): ok, error, panic, none, qmodel, collection, ... (see Build)
+	Group     string `json:"group,omitempty"`
+	Parallel  bool   `json:"parallel,omitempty"`
 }
 
 // ReqSpec is one request.
@@ -68,6 +68,9 @@ type Case struct {
 	// FailPub > 1: the connection refuses its FailPub-th publish, once (as a server does
 	// with a payload above its limit); everything before and after is accepted (Run only).
 	FailPub int `json:"failPub,omitempty"`
+	// WideOwnership: the service owns everything (SetOwnedResources with ">"), so that it also
+	// gets requests for names outside its own name space: there is no resource for them.
+	WideOwnership bool `json:"wideOwnership,omitempty"`
 }
 
 func (c Case) String() string {
@@ -114,9 +117,9 @@ type Obs struct {
 type Result struct {
 	// NoReplyPubs lists what the service published in reaction to messages without reply subject.
 	NoReplyPubs []string
-	Obs       []Obs
-	Log       []fakeconn.Entry
-	ProbeOK   bool
+	Obs         []Obs
+	Log         []fakeconn.Entry
+	ProbeOK     bool
 	// FailedPub is the subject of the publish that the connection refused (FailPub).
 	FailedPub string
 	Errors    []string
@@ -192,6 +195,9 @@ func Build(c *Case, rs *runState) *res.Service {
 			s.Mount(toks[0], sub)
 			mounts[toks[0]] = sub
 		}
+	}
+	if c.WideOwnership {
+		s.SetOwnedResources([]string{">"}, []string{">"})
 	}
 	s.SetWorkerCount(c.Workers) // 0 (or less) selects the default count
 	if c.NoQueue {
@@ -871,7 +877,8 @@ func GenRequest(name string, hs []HandlerSpec, uniq string) *rapid.Generator[Req
 		case k == 0:
 			rname = name + "." + rapid.SampledFrom([]string{"nosuch", "item", "item.1.sub.x", "model.extra", "new", "item" + strings.Repeat(".a", 40), strings.Repeat("x.", 32) + "x"}).Draw(t, "nomatch")
 		case k == 1:
-			rname = rapid.SampledFrom([]string{name, "other.model", name + "x.model"}).Draw(t, "outside")
+			// (only a service that owns more than its own name space is sent these)
+			rname = rapid.SampledFrom([]string{name, "other.model", name + "x.model", name + "_model", name[:len(name)-1], "s", name + "ing.1", "x" + name + ".model"}).Draw(t, "outside")
 		default:
 			var lits []string
 			for _, o := range hs {
@@ -927,6 +934,7 @@ func GenCase() *rapid.Generator[Case] {
 		c := Case{Name: rapid.SampledFrom([]string{"svc", "svc", "a.b"}).Draw(t, "name"), Workers: rapid.SampledFrom([]int{1, 2, 4, 0}).Draw(t, "workers")}
 		c.NoLogger = rapid.IntRange(0, 4).Draw(t, "nologger") == 0
 		c.NoQueue = rapid.IntRange(0, 3).Draw(t, "noqueue") == 0
+		c.WideOwnership = rapid.IntRange(0, 3).Draw(t, "wideOwnership") == 0
 		c.ServeTwice = rapid.IntRange(0, 5).Draw(t, "servetwice") == 0
 		c.NoReplyDup = rapid.IntRange(0, 4).Draw(t, "noreplydup") == 0
 		c.Handlers = GenHandlers().Draw(t, "handlers")
